@@ -211,7 +211,7 @@ theorem ip_step (ps : List LayerInfo) (o : Ip4) (os : List AnyObj) (hi : o.Inv) 
     have := hpos y r hnx
     have hk : region.length + k - o.hdr > 0 := by omega
     rw [if_pos hk]
-    refine ⟨⟨false, ?_⟩, .inl trivial⟩
+    refine ⟨y.info.1, false, ?_, .inl rfl, .inl trivial⟩
     apply ip4_dispatch_cls _ _ _ (by rw [ip4_final_fragmented]; exact hl2.1)
     rw [final_protocol]
     exact ip4_protocolFor_obj ps y r o hl2.2
@@ -286,7 +286,7 @@ theorem ah_step (ps : List LayerInfo) (a : Ah) (os : List AnyObj) (hi : a.Inv)
     have := hpos y r hnx
     have hk : region.length - a.hdr > 0 := by omega
     rw [if_pos hk]
-    refine ⟨⟨false, ?_⟩, .inl trivial⟩
+    refine ⟨y.info.1, false, ?_, .inl rfl, .inl trivial⟩
     have hd : Tags.classOfIpProto (Ah.written (cxOf ps (y :: r)) a).nextHeader = some y.info.1 :=
       ah_nextHeaderFor_obj ps y r a hl2
     simp only [Ah.dispatch, hd]
